@@ -1470,8 +1470,10 @@ def check(run: common.Run):  # noqa: C901
               f"forms (exhaustive, {len(small)} trees), + {len(batch)} seeded random trees (modules ma mb pk/__init__ "
               "pk.s1 pk.s2 mc, re-export chains, aliases, star imports, __all__ as list/tuple) x 8 random clients; for "
               "each: resolve vs CPython namespaces, fix_starred_imports and fix_reimported_names vs model. statement "
-              f"rules: ALL lists of <= {maxlen} statements over 10 statement forms x 2-3 used-sets (exhaustive, "
-              f"{n_small_lists}) + random lists, x 6 rules. Non-trivial = the real rule changed the client; distinct by "
+              f"rules: ALL lists of <= {maxlen} statements over {len(SMALL_STMTS)} statement forms (two of them bind one name "
+              "twice in ONE statement) x 2-3 used-sets, + runs with a star import next to / between every form for the "
+              f"sort rules (exhaustive, {n_small_lists}) + random lists, x {len(RULES)} rules (6 single rules, "
+              "fix_duplicate_imports and sort_imports as a whole). Non-trivial = the real rule changed the client; distinct by "
               "(rule, tree, source)."),
         samples=[{"modules": {m["name"]: render_module(m) for m in sample_small[0]["mods"]},
                   "client": client_source(sample_small[1][1], sample_small[2][1]),
